@@ -159,14 +159,14 @@ Handle(s, win) ==
               ELSE Res(TRUE, [c |-> cls, path |-> L[1].path, vid |-> L[1].vid], s, <<>>)
     [] cls = "GSTR" ->
          IF ~HasS(e0.q) /\ Variant # "noswallow" THEN Res(FALSE, [c |-> cls], s, <<>>)
-         ELSE LET g == GS(win, 1, 0, <<>>)
+         ELSE LET g == GS(SelectSeq(win, LAMBDA e : e.code = e0.code), 1, 0, <<>>)      \* the string's own records only
                   txt == StripNul(g.txt)
               IN Res(TRUE, [c |-> cls, sid |-> g.sid, text |-> txt],
                      IF Len(txt) > 0 THEN [s EXCEPT !.gstr = Put(s.gstr, g.sid, txt)] ELSE s,
                      IF Len(txt) > 0 THEN <<Asg("gstr", g.sid, txt)>> ELSE <<>>)
     [] cls \in {"TNAME", "TNAMEP"} ->
          IF ~HasS(e0.q) /\ Variant # "noswallow" THEN Res(FALSE, [c |-> cls], s, <<>>)
-         ELSE LET nm == StripNul(JoinData(win, 1)) IN
+         ELSE LET nm == StripNul(JoinData(SelectSeq(win, LAMBDA e : e.code = e0.code), 1)) IN     \* other records may lie between the chunks
               Res(TRUE, [c |-> cls, name |-> nm], [s EXCEPT !.tname = Put(s.tname, t, nm)], <<Asg("tname", t, nm)>>)
     [] cls = "NTD" ->
          Res(TRUE, [c |-> cls, ntid |-> e0.a.ntid, pid |-> e0.a.pid],
